@@ -11,6 +11,8 @@ appended to the positional ones in source order.  Conventions (all visible in th
   * a leading docstring and bare string statements (attribute docstrings) are dropped;
   * `X.MEMBER` with `X` capitalised and `MEMBER` upper-case is an enum constant `.enumc "X" "MEMBER"`;
   * `np.f(..)` / `numpy.f(..)` are calls of the function "np.f"; `a.m(..)` on anything else is a method call;
+  * a call of a capitalised name (constructor) or of a function of a known module (`stim.f`) keeps its keyword names: each
+    keyword argument becomes the pair `(name, value)`; other calls append keyword values to the positional ones;
   * `int(a / b)` is the builtin "int_truediv" (truncation of the exact quotient);
   * `assert c, msg` is `if c: pass else: raise`;
   * decorators are recorded by name (a cache decorator on a timing function is a semantic change: finding R1).
@@ -74,6 +76,12 @@ TARGETS = [
     ('IRelationComponent_has_relation', 'qce_circuit.structure.intrf_circuit_operation', 'IRelationComponent', 'has_relation'),
     ('Composite_start_time', 'qce_circuit.structure.intrf_circuit_operation_composite', 'CircuitCompositeOperation', 'start_time'),
     ('Composite_duration', 'qce_circuit.structure.intrf_circuit_operation_composite', 'CircuitCompositeOperation', 'duration'),
+    # --- C07: acquisition index scan
+    ('AcquisitionRegistry_get_registry_at', 'qce_circuit.structure.registry_acquisition', 'AcquisitionRegistry', 'get_registry_at'),
+    # --- C08: annotation instructions
+    ('Detector_to_stim', 'qce_circuit.addon_stim.circuit_operations', 'DetectorOperation', 'to_stim_instruction'),
+    ('Observable_to_stim', 'qce_circuit.addon_stim.circuit_operations', 'LogicalObservableOperation', 'to_stim_instruction'),
+    ('CoordinateShift_to_stim', 'qce_circuit.addon_stim.circuit_operations', 'CoordinateShiftOperation', 'to_stim_instruction'),
     # --- C19: identifiers
     ('ChannelIdentifier_eq', 'qce_circuit.structure.intrf_circuit_operation', 'ChannelIdentifier', '__eq__'),
     ('EdgeIDObj_contains', 'qce_circuit.connectivity.intrf_channel_identifier', 'EdgeIDObj', 'contains'),
@@ -82,6 +90,7 @@ TARGETS = [
 ]
 
 NUMPY_NAMES = {'np', 'numpy'}
+MODULE_NAMES = {'stim'}
 
 
 def lstr(s: str) -> str:
@@ -171,13 +180,19 @@ def expr(e: ast.AST) -> str:
         if any(isinstance(a, ast.Starred) for a in e.args) or any(k.arg is None for k in e.keywords):
             return unsupported_e(e)
         args = [expr(a) for a in e.args] + [expr(k.value) for k in e.keywords]
+        # constructor calls (capitalised name) and calls of module functions keep their keyword NAMES: `(name, value)` pairs
+        tagged = [expr(a) for a in e.args] + [f'.tuple [.str {lstr(k.arg)}, {expr(k.value)}]' for k in e.keywords]
         if isinstance(e.func, ast.Name):
             if e.func.id == 'int' and len(e.args) == 1 and isinstance(e.args[0], ast.BinOp) and isinstance(e.args[0].op, ast.Div):
                 return f'.call "int_truediv" {llist([expr(e.args[0].left), expr(e.args[0].right)])}'
             if e.func.id == 'isinstance' and len(e.args) == 2 and isinstance(e.args[1], ast.Name) and not e.keywords:
                 return f'.call "isinstance" {llist([expr(e.args[0]), ".str " + lstr(e.args[1].id)])}'
+            if e.func.id[:1].isupper():
+                return f'.call {lstr(e.func.id)} {llist(tagged)}'
             return f'.call {lstr(e.func.id)} {llist(args)}'
         if isinstance(e.func, ast.Attribute):
+            if isinstance(e.func.value, ast.Name) and e.func.value.id in MODULE_NAMES:
+                return f'.call {lstr(e.func.value.id + "." + e.func.attr)} {llist(tagged)}'
             if isinstance(e.func.value, ast.Name) and e.func.value.id in NUMPY_NAMES:
                 # `dtype=` does not change the integer values the fragment is about
                 args = [expr(a) for a in e.args] + [expr(k.value) for k in e.keywords if k.arg != 'dtype']
